@@ -531,11 +531,21 @@ package graphql
 //@   nopanic
 //@   ensures inputTypeAST == nil ==> result1 != nil
 //@ func NewList
-//@   trusted
+//@   props C02 C11
+//@   nosafety
 //@   assigns nothing
+//@   ensures result != nil && fresh(result)
+//@   ensures !isnil(ofType) ==> result.OfType == ofType && result.err == nil
+//@   ensures isnil(ofType) ==> isnil(result.OfType) && result.err != nil
+// (verified, were trusted) the wrapper constructors: a fresh wrapper around exactly the given type; a nil type
+// (and for NonNull a non-null type) gives a wrapper carrying an error and no type
 //@ func NewNonNull
-//@   trusted
+//@   props C02 C11
+//@   nosafety
 //@   assigns nothing
+//@   ensures result != nil && fresh(result)
+//@   ensures !isnil(ofType) && !typeis(ofType, "*graphql.NonNull") ==> result.OfType == ofType && result.err == nil
+//@   ensures isnil(ofType) || typeis(ofType, "*graphql.NonNull") ==> isnil(result.OfType) && result.err != nil
 //@ func invariant
 //@   trusted
 //@   assigns nothing
@@ -1624,6 +1634,48 @@ package graphql
 //@   ensures calls("doTypesOverlap") == 0 ==> calls("reportError") == 0
 //@   ensures calls("getFragmentType") == 1 && calls("ParentType") == 1 && !isnil(lastresult("getFragmentType")) && !isnil(parentType) ==> calls("doTypesOverlap") == 1
 //@   at call reportError: assert arg0 == context && len(arg2) == 1 && typeis(arg2[0], "*ast.FragmentSpread") && as(arg2[0], "*ast.FragmentSpread") == node
+
+// VariablesInAllowedPosition: the definitions of the operation being visited are recorded by name (reset at
+// every operation); on leaving it every usage (also inside spread fragments) whose variable is defined and
+// whose position type is known is judged: the variable's effective type must be a subtype of the position's
+// type, and the error is located at the definition and at the usage.
+//@ func isTypeSubTypeOf
+//@   trusted
+//@   assigns nothing
+//@ func effectiveType
+//@   props C02
+//@   functional
+//@   assigns nothing
+//@   nosafety
+//@   ensures varDef.DefaultValue == nil ==> result == varType
+//@   ensures varDef.DefaultValue != nil && typeis(varType, "*graphql.NonNull") ==> result == varType
+//@   ensures varDef.DefaultValue != nil && !typeis(varType, "*graphql.NonNull") ==> typeis(result, "*graphql.NonNull") && as(result, "*graphql.NonNull").OfType == varType
+//@ func ValidationContext.RecursiveVariableUsages
+//@   trusted
+//@   assigns nothing
+//@ func VariablesInAllowedPositionRule$1
+//@   props C02
+//@   nosafety
+//@   ensures len(varDefMap) == 0 && fresh(varDefMap) && result0 == visitor.ActionNoChange
+//@ func VariablesInAllowedPositionRule$3
+//@   props C02
+//@   nosafety
+//@   ensures typeis(p.Node, "*ast.VariableDefinition") && as(p.Node, "*ast.VariableDefinition").Variable != nil && as(p.Node, "*ast.VariableDefinition").Variable.Name != nil && len(as(p.Node, "*ast.VariableDefinition").Variable.Name.Value) > 0 ==> has(varDefMap, as(p.Node, "*ast.VariableDefinition").Variable.Name.Value) && varDefMap[as(p.Node, "*ast.VariableDefinition").Variable.Name.Value] == as(p.Node, "*ast.VariableDefinition")
+//@   ensures varDefMap == old(varDefMap) && result0 == visitor.ActionNoChange
+//@ func VariablesInAllowedPositionRule$2
+//@   props C02 C18
+//@   nosafety
+//@   ensures !typeis(p.Node, "*ast.OperationDefinition") ==> calls("reportError") == 0 && calls("RecursiveVariableUsages") == 0
+//@   at call RecursiveVariableUsages: assert arg1 == operation
+//@   loop 1 over lastresult("RecursiveVariableUsages")
+//@   at call typeFromAST: assert arg1 == varDef.Type && varDef == varDefMap[varName] && usage.Type != nil
+//@   at call effectiveType: assert arg0 == varType && arg1 == varDef
+//@   at call isTypeSubTypeOf: assert arg1 == lastresult("effectiveType") && arg2 == usage.Type && !isnil(varType)
+//@   loop 1 ensures calls("isTypeSubTypeOf") == atloop(1, calls("isTypeSubTypeOf")) + 1 && !lastresult("isTypeSubTypeOf") ==> calls("reportError") == atloop(1, calls("reportError")) + 1
+//@   loop 1 ensures calls("isTypeSubTypeOf") == atloop(1, calls("isTypeSubTypeOf")) + 1 && lastresult("isTypeSubTypeOf") ==> calls("reportError") == atloop(1, calls("reportError"))
+//@   loop 1 ensures calls("isTypeSubTypeOf") == atloop(1, calls("isTypeSubTypeOf")) ==> calls("reportError") == atloop(1, calls("reportError"))
+//@   loop 1 ensures calls("typeFromAST") == atloop(1, calls("typeFromAST")) + 1 && lastresult("typeFromAST", 1) == nil && !isnil(lastresult("typeFromAST")) ==> calls("isTypeSubTypeOf") == atloop(1, calls("isTypeSubTypeOf")) + 1
+//@   at call reportError: assert arg0 == context && len(arg2) == 2 && typeis(arg2[0], "*ast.VariableDefinition") && as(arg2[0], "*ast.VariableDefinition") == varDef && typeis(arg2[1], "*ast.Variable") && as(arg2[1], "*ast.Variable") == usage.Node
 
 // VariablesAreInputTypes: a variable definition is reported exactly when its type is known and not an input
 // type; the error is located at the type reference.
